@@ -1,8 +1,10 @@
 (* C14, hand-written theorems about the model of the arity checker (C14_model.v):
    for ALL expressions and every UFL algebra, an accepted integrand is (conjugate-)linear, jointly in
    the arguments of each number, and contains exactly the arguments of its arity.
-   The theorem needs two guards, [lt_ok] and [dot_ok]; outside them the model (faithful to the code)
-   accepts non-linear integrands: [C14_sound_refuted], [C14_dot_refuted]. *)
+   (The two defects that earlier required guards - list tensors with non-zero constant components, Dot
+   booked as conjugating - have been repaired in /repo; the model follows the repaired handlers, the
+   theorem holds without guards, and the former counterexamples are now proved to be REJECTED:
+   [C14_list_tensor_constant_rejected], [C14_dot_not_conjugating].) *)
 Require Import UFLV.Core.Den UFLV.Props.C14_model.
 Require Import Lia.
 
@@ -115,16 +117,26 @@ Proof.
     + intros [a [[<-|Ha] Hz]]; [left; auto|right; exists a; auto].
 Qed.
 
-Lemma h_list_tensor_ok l c :
-  h_list_tensor num l = OK c ->
+Lemma existsb_combine_nth {X Y} (f : X * Y -> bool) : forall (es : list X) (l : list Y) k x a,
+  existsb f (combine es l) = false -> nth_error es k = Some x -> nth_error l k = Some a -> f (x, a) = false.
+Proof.
+  induction es as [|e t IH]; intros [|b l] k x a H Hx Ha; destruct k; cbn in *; try discriminate.
+  - inversion Hx; inversion Ha; subst. apply orb_false_iff in H. apply H.
+  - apply orb_false_iff in H. destruct H as [_ H]. eapply IH; eauto.
+Qed.
+
+Lemma h_list_tensor_ok es l c :
+  h_list_tensor num es l = OK c ->
   (forall p, In p c <-> exists a, In a l /\ In p a) /\
-  (c <> [] -> forall a b, In a l -> In b l -> a <> [] -> b <> [] -> nums num a = nums num b).
+  (c <> [] -> forall a b, In a l -> In b l -> a <> [] -> b <> [] -> nums num a = nums num b) /\
+  (c <> [] -> forall k x, nth_error es k = Some x -> nth_error l k = Some [] -> is_zero x = true).
 Proof.
   unfold h_list_tensor. destruct (fold_right a_union [] l) as [|x t] eqn:E.
-  - intros H. inversion H; subst. split; [|intros F; congruence].
+  - intros H. inversion H; subst. split; [|split; intros F; congruence].
     intros p. rewrite <- In_fold_union, E. reflexivity.
-  - destruct (all_equal (filter nonempty (map (nums num) l))) eqn:Ha; [|discriminate].
-    intros H. inversion H; subst. split.
+  - destruct (existsb bad_component (combine es l)) eqn:Hb; [discriminate|].
+    destruct (all_equal (filter nonempty (map (nums num) l))) eqn:Ha; [|discriminate].
+    intros H. inversion H; subst. split; [|split].
     + intros p. rewrite <- In_fold_union, E. reflexivity.
     + intros _ a b Hina Hinb Hna Hnb.
       assert (N : forall a, In a l -> a <> [] -> In (nums num a) (filter nonempty (map (nums num) l))).
@@ -133,6 +145,8 @@ Proof.
         destruct (ins_nat (num (fst p)) (fold_right ins_nat [] (map (fun p0 => num (fst p0)) q))) eqn:Ei; [|reflexivity].
         exfalso. assert (In (num (fst p)) (@nil nat)) as []. rewrite <- Ei. apply In_ins_nat. auto. }
       apply (all_equal_spec _ _ _ Ha); apply N; assumption.
+    + intros _ k y Hy Hk. pose proof (existsb_combine_nth _ _ _ _ _ _ Hb Hy Hk) as F.
+      unfold bad_component in F. cbn in F. destruct (is_zero y); [reflexivity|discriminate].
 Qed.
 
 End Sets.
@@ -306,32 +320,13 @@ Proof.
     pose proof (IHa e1 (or_introl eq_refl) _ Ea) as H1.
     pose proof (IHa e2 (or_intror (or_introl eq_refl)) _ Eb) as H2.
     intros i. cbn [terms]. rewrite in_app_iff, <- (H1 i), <- (H2 i). split.
-    + intros [f Hf]. apply Hc in Hf. destruct Hf as [Hf|Hf]; [left|right; apply In_conj in Hf]; eauto.
-    + intros [[f Hf]|[f Hf]]; [exists f|exists (negb f)]; apply Hc; [left; exact Hf|right].
-      apply In_conj. rewrite negb_involutive. exact Hf.
+    + intros [f Hf]. apply Hc in Hf. destruct Hf; [left|right]; exists f; auto.
+    + intros [[f Hf]|[f Hf]]; exists f; apply Hc; auto.
 Qed.
 
 End Exact.
 
 (* ---------------------------------------------------------------------------------------------- *)
-(* guards                                                                                           *)
-
-Inductive subexpr : expr -> expr -> Prop :=
-| se_refl e : subexpr e e
-| se_step x y e : In y (subs e) -> subexpr x y -> subexpr x e.
-
-(* [lt_ok]: a list tensor that contains arguments has no argument-free component other than Zero nodes;
-   [dot_ok] (complex mode only): the second operand of a Dot node is argument-free *)
-Definition node_ok (cm : bool) (x : expr) : Prop :=
-  match x with
-  | ListTensor es => has_arg x = true -> forall c, In c es -> has_arg c = false -> is_zero c = true
-  | Dot a b => cm = true -> has_arg b = false
-  | _ => True
-  end.
-Definition guard (cm : bool) (e : expr) : Prop := forall x, subexpr x e -> node_ok cm x.
-
-Lemma guard_sub cm e y : guard cm e -> In y (subs e) -> guard cm y.
-Proof. intros G Hy x Hx. apply G. eapply se_step; eauto. Qed.
 
 Lemma no_arg_existsb l : (forall i, ~ In (1, i) l) -> existsb is_argp l = false.
 Proof.
@@ -489,67 +484,67 @@ Qed.
 Ltac inv_ok := match goal with H : OK _ = OK _ |- _ => inversion H; subst; clear H end.
 
 Definition P (e : expr) : Prop :=
-  forall C, arity num e = OK C -> guard cm e -> fam C -> forall S, uni C S -> lin e S.
+  forall C, arity num e = OK C -> fam C -> forall S, uni C S -> lin e S.
 
 Theorem arity_linear : forall e, P e.
 Proof.
   apply (expr_subs_ind P). unfold P. intros e IH C. rewrite arity_eq.
-  assert (IHa : forall x, In x (asubs e) -> forall B, arity num x = OK B -> guard cm e -> fam B ->
+  assert (IHa : forall x, In x (asubs e) -> forall B, arity num x = OK B -> fam B ->
                 forall S, uni B S -> lin x S).
-  { intros x Hx B EB G. apply (IH x (asubs_subs _ _ Hx) B EB). eapply guard_sub; [exact G|apply asubs_subs, Hx]. }
+  { intros x Hx B EB. apply (IH x (asubs_subs _ _ Hx) B EB). }
   clear IH.
   destruct e; cbn [cls_of class_handler apply_handler asubs subs map];
     (* terminals *)
-    try (intros E; inv_ok; intros _ [i0 [f0 [[] _]]]; fail);
+    try (intros E; inv_ok; intros [i0 [f0 [[] _]]]; fail);
     (* nonlinear operators *)
     try (match goal with |- (if has_arg ?x then _ else _) = _ -> _ =>
-           destruct (has_arg x); [discriminate|]; intros E; inv_ok; intros _ [i0 [f0 [[] _]]] end; fail).
+           destruct (has_arg x); [discriminate|]; intros E; inv_ok; intros [i0 [f0 [[] _]]] end; fail).
   - (* Term *)
     destruct k as [|[|[|k]]]; cbn [class_handler apply_handler]; intros E; inv_ok;
-      try (intros _ [i0 [f0 [[] _]]]; fail).
-    intros _ [i0 [f0 [[H|[]] En]]] S U s rho c. inversion H; subst. cbn [den].
+      try (intros [i0 [f0 [[] _]]]; fail).
+    intros [i0 [f0 [[H|[]] En]]] S U s rho c. inversion H; subst. cbn [den].
     rewrite <- (U i0 false (or_introl eq_refl) En). cbn [eff]. apply on_n. exact En.
   - (* Sum *)
     destruct (arity num e1) as [a|] eqn:Ea; cbn [all_ok]; [|discriminate].
     destruct (arity num e2) as [b|] eqn:Eb; cbn [all_ok]; [|discriminate].
     unfold h_sum. destruct (aeqb a b) eqn:Eab; [|discriminate]. intros E; inv_ok.
-    apply aeqb_eq in Eab. subst b. intros G F S U s rho c. cbn [den].
-    rewrite (IHa e1 (or_introl eq_refl) _ Ea G F S U), (IHa e2 (or_intror (or_introl eq_refl)) _ Eb G F S U). ring.
+    apply aeqb_eq in Eab. subst b. intros F S U s rho c. cbn [den].
+    rewrite (IHa e1 (or_introl eq_refl) _ Ea F S U), (IHa e2 (or_intror (or_introl eq_refl)) _ Eb F S U). ring.
   - (* Product *)
     destruct (arity num e1) as [a|] eqn:Ea; cbn [all_ok]; [|discriminate].
     destruct (arity num e2) as [b|] eqn:Eb; cbn [all_ok]; [|discriminate].
-    intros E G F S U s rho c. cbn [den].
+    intros E F S U s rho c. cbn [den].
     destruct (prod_split _ _ _ _ E F U) as [[Fa [Fb Ua]]|[Fa [Fb Ub]]].
-    + rewrite (IHa e1 (or_introl eq_refl) _ Ea G Fa S Ua).
+    + rewrite (IHa e1 (or_introl eq_refl) _ Ea Fa S Ua).
       destruct (indep_of_nofam _ _ Eb Fb s rho []) as [<- <-]. ring.
-    + rewrite (IHa e2 (or_intror (or_introl eq_refl)) _ Eb G Fb S Ub).
+    + rewrite (IHa e2 (or_intror (or_introl eq_refl)) _ Eb Fb S Ub).
       destruct (indep_of_nofam _ _ Ea Fa s rho []) as [<- <-]. ring.
   - (* Division *)
     destruct (arity num e1) as [a|] eqn:Ea; cbn [all_ok]; [|discriminate].
     destruct (arity num e2) as [b|] eqn:Eb; cbn [all_ok]; [|discriminate].
-    unfold h_division. destruct b; [|discriminate]. intros E; inv_ok. intros G F S U s rho c. cbn [den].
-    rewrite (IHa e1 (or_introl eq_refl) _ Ea G F S U).
+    unfold h_division. destruct b; [|discriminate]. intros E; inv_ok. intros F S U s rho c. cbn [den].
+    rewrite (IHa e1 (or_introl eq_refl) _ Ea F S U).
     assert (NF : ~ fam []) by (intros [i0 [f0 [[] _]]]).
     destruct (indep_of_nofam _ _ Eb NF s rho []) as [<- <-]. apply div_lin.
   - (* Conj *)
     destruct (arity num e) as [a|] eqn:Ea; cbn [all_ok]; [|discriminate]. intros E; inv_ok.
-    intros G F S U s rho c. cbn [den].
-    rewrite (IHa e (or_introl eq_refl) _ Ea G (proj1 (fam_conj a) F) _ (uni_conj _ _ U)). apply conj_lin.
+    intros F S U s rho c. cbn [den].
+    rewrite (IHa e (or_introl eq_refl) _ Ea (proj1 (fam_conj a) F) _ (uni_conj _ _ U)). apply conj_lin.
   - (* Indexed *)
     destruct (arity num e) as [a|] eqn:Ea; cbn [all_ok]; [|discriminate]. intros E; inv_ok.
-    intros G F S U s rho c. cbn [den]. apply (IHa e (or_introl eq_refl) _ Ea G F S U).
+    intros F S U s rho c. cbn [den]. apply (IHa e (or_introl eq_refl) _ Ea F S U).
   - (* IndexSum *)
     destruct (arity num e) as [a|] eqn:Ea; cbn [all_ok]; [|discriminate]. intros E; inv_ok.
-    intros G F S U s rho c. cbn [den]. apply ksum_lin. intros k. apply (IHa e (or_introl eq_refl) _ Ea G F S U).
+    intros F S U s rho c. cbn [den]. apply ksum_lin. intros k. apply (IHa e (or_introl eq_refl) _ Ea F S U).
   - (* ComponentTensor *)
     destruct (arity num e) as [a|] eqn:Ea; cbn [all_ok]; [|discriminate]. intros E; inv_ok.
-    intros G F S U s rho c. cbn [den]. apply (IHa e (or_introl eq_refl) _ Ea G F S U).
+    intros F S U s rho c. cbn [den]. apply (IHa e (or_introl eq_refl) _ Ea F S U).
   - (* ListTensor *)
     destruct (all_ok (map (arity num) es)) as [l|] eqn:El; [|discriminate].
-    intros E G F S U s rho c.
+    intros E F S U s rho c.
     pose proof (arity_exact num (ListTensor es) C) as X. rewrite arity_eq in X.
     cbn [cls_of class_handler apply_handler asubs subs] in X. rewrite El in X. specialize (X E).
-    apply h_list_tensor_ok in E. destruct E as [Hc Hn].
+    apply h_list_tensor_ok in E. destruct E as [Hc [Hn Hz0]].
     apply all_ok_spec in El. apply map_arity_ok in El. destruct El as [Hlen Hnth].
     assert (HA : has_arg (ListTensor es) = true).
     { destruct F as [i0 [f0 [Hin _]]]. unfold has_arg. apply existsb_exists. exists (1, i0).
@@ -562,10 +557,8 @@ Proof.
         assert (k < length es) by (apply nth_error_Some; congruence). lia. }
       destruct Ha as [a Ha]. pose proof (Hnth _ _ _ Hk Ha) as Ex. pose proof (nth_error_In _ _ Ha) as Hal.
       destruct a as [|p q].
-      - (* argument-free component: Zero by the guard *)
-        assert (Hz : is_zero x = true).
-        { apply (G (ListTensor es) (se_refl _) HA x Hx0). unfold has_arg. apply no_arg_existsb.
-          apply exact_nil_inv. apply (arity_exact num x [] Ex). }
+      - (* argument-free component: a Zero node, or the checker would have rejected *)
+        assert (Hz : is_zero x = true) by (apply (Hz0 Cne k x Hk Ha)).
         destruct x; try discriminate. cbn [den]. ring.
       - (* a component with arguments has the same argument numbers as the one carrying family n *)
         destruct F as [i0 [f0 [Hin En]]]. apply Hc in Hin. destruct Hin as [b [Hb Hib]].
@@ -573,84 +566,77 @@ Proof.
         assert (Eq : nums num (p :: q) = nums num b).
         { apply Hn; auto; [discriminate|intros ->; destruct Hib]. }
         rewrite <- Eq in Fb. apply In_nums in Fb. destruct Fb as [[i1 f1] [H1 E1]].
-        apply (IHa x Hx0 _ Ex G); [exists i1, f1; auto|].
+        apply (IHa x Hx0 _ Ex); [exists i1, f1; auto|].
         eapply uni_sub; [|exact U]. intros p0 Hp0. apply Hc. exists (p :: q). auto. }
     cbn [den]. destruct c as [|k c']; [ring|]. apply nth_den_lin. exact El.
   - (* Conditional *)
     destruct (arity num e1) as [a|] eqn:Ea; cbn [all_ok]; [|discriminate].
     destruct (arity num e2) as [b|] eqn:Eb; cbn [all_ok]; [|discriminate].
     destruct (has_arg_c c) eqn:Hc; [discriminate|].
-    unfold h_conditional. intros E G F S U s rho cc.
+    unfold h_conditional. intros E F S U s rho cc.
     change (dz s rho (Conditional c e1 e2) cc) with (kcond (denc envz D DX ki s rho c) (dz s rho e1 cc) (dz s rho e2 cc)).
     change (dx s rho (Conditional c e1 e2) cc) with (kcond (denc envx D DX ki s rho c) (dx s rho e1 cc) (dx s rho e2 cc)).
     change (dy s rho (Conditional c e1 e2) cc) with (kcond (denc envy D DX ki s rho c) (dy s rho e1 cc) (dy s rho e2 cc)).
     destruct (denc_indep c Hc s rho) as [<- <-].
     destruct (nonempty a && is_zero e2) eqn:C1.
     { inv_ok. apply andb_prop in C1. destruct C1 as [_ Z]. destruct e2; try discriminate.
-      rewrite (IHa e1 (or_introl eq_refl) _ Ea G F S U). cbn [den].
+      rewrite (IHa e1 (or_introl eq_refl) _ Ea F S U). cbn [den].
       replace (k0 : A) with (S * k0 + k0) at 1 by ring. apply cond_lin. }
     destruct (nonempty b && is_zero e1) eqn:C2.
     { inv_ok. apply andb_prop in C2. destruct C2 as [_ Z]. destruct e1; try discriminate.
-      rewrite (IHa e2 (or_intror (or_introl eq_refl)) _ Eb G F S U). cbn [den].
+      rewrite (IHa e2 (or_intror (or_introl eq_refl)) _ Eb F S U). cbn [den].
       replace (k0 : A) with (S * k0 + k0) at 1 by ring. apply cond_lin. }
     destruct (aeqb a b) eqn:Eab; [|discriminate]. inv_ok. apply aeqb_eq in Eab. subst b.
-    rewrite (IHa e1 (or_introl eq_refl) _ Ea G F S U), (IHa e2 (or_intror (or_introl eq_refl)) _ Eb G F S U).
+    rewrite (IHa e1 (or_introl eq_refl) _ Ea F S U), (IHa e2 (or_intror (or_introl eq_refl)) _ Eb F S U).
     apply cond_lin.
   - (* Vari *)
     destruct (arity num e) as [a|] eqn:Ea; cbn [all_ok]; [|discriminate]. intros E; inv_ok.
-    intros G F S U s rho c. cbn [den]. apply (IHa e (or_introl eq_refl) _ Ea G F S U).
+    intros F S U s rho c. cbn [den]. apply (IHa e (or_introl eq_refl) _ Ea F S U).
   - (* Restricted *)
     destruct plus; cbn [class_handler apply_handler];
       (destruct (arity num e) as [a|] eqn:Ea; cbn [all_ok]; [|discriminate]; intros E; inv_ok;
-       intros G F S U s rho c; cbn [den]; apply (IHa e (or_introl eq_refl) _ Ea G F S U)).
+       intros F S U s rho c; cbn [den]; apply (IHa e (or_introl eq_refl) _ Ea F S U)).
   - (* Grad *)
     destruct (arity num e) as [a|] eqn:Ea; cbn [all_ok]; [|discriminate]. intros E; inv_ok.
-    intros G F S U s rho c. cbn [den]. destruct (split_last c) as [c' j].
-    rewrite (IHa e (or_introl eq_refl) _ Ea G F S U). apply (D_lin _ _ _ _ _ F U).
+    intros F S U s rho c. cbn [den]. destruct (split_last c) as [c' j].
+    rewrite (IHa e (or_introl eq_refl) _ Ea F S U). apply (D_lin _ _ _ _ _ F U).
   - (* RefGrad *)
     destruct (arity num e) as [a|] eqn:Ea; cbn [all_ok]; [|discriminate]. intros E; inv_ok.
-    intros G F S U s rho c. cbn [den]. destruct (split_last c) as [c' j].
-    rewrite (IHa e (or_introl eq_refl) _ Ea G F S U). apply (DX_lin _ _ _ _ _ F U).
+    intros F S U s rho c. cbn [den]. destruct (split_last c) as [c' j].
+    rewrite (IHa e (or_introl eq_refl) _ Ea F S U). apply (DX_lin _ _ _ _ _ F U).
   - (* RefValue *)
     destruct (arity num e) as [a|] eqn:Ea; cbn [all_ok]; [|discriminate]. intros E; inv_ok.
-    intros G F S U s rho c. cbn [den]. apply (IHa e (or_introl eq_refl) _ Ea G F S U).
+    intros F S U s rho c. cbn [den]. apply (IHa e (or_introl eq_refl) _ Ea F S U).
   - (* Outer *)
     destruct (arity num e1) as [a|] eqn:Ea; cbn [all_ok]; [|discriminate].
     destruct (arity num e2) as [b|] eqn:Eb; cbn [all_ok]; [|discriminate].
-    intros E G F S U s rho c. cbn [den].
+    intros E F S U s rho c. cbn [den].
     destruct (prod_split _ _ _ _ E F U) as [[Fa [Fb Ua]]|[Fa [Fb Ub]]].
-    + rewrite (IHa e1 (or_introl eq_refl) _ Ea G (proj1 (fam_conj a) Fa) _ (uni_conj _ _ Ua)).
+    + rewrite (IHa e1 (or_introl eq_refl) _ Ea (proj1 (fam_conj a) Fa) _ (uni_conj _ _ Ua)).
       destruct (indep_of_nofam _ _ Eb Fb s rho (skipn (length (shape e1)) c)) as [<- <-].
       rewrite conj_lin. ring.
-    + rewrite (IHa e2 (or_intror (or_introl eq_refl)) _ Eb G Fb S Ub).
+    + rewrite (IHa e2 (or_intror (or_introl eq_refl)) _ Eb Fb S Ub).
       assert (Fa' : ~ fam a) by (intros H; apply Fa, fam_conj, H).
       destruct (indep_of_nofam _ _ Ea Fa' s rho (firstn (length (shape e1)) c)) as [<- <-]. ring.
   - (* Inner *)
     destruct (arity num e1) as [a|] eqn:Ea; cbn [all_ok]; [|discriminate].
     destruct (arity num e2) as [b|] eqn:Eb; cbn [all_ok]; [|discriminate].
-    intros E G F S U s rho c. cbn [den]. apply ksum_shape_lin. intros I.
+    intros E F S U s rho c. cbn [den]. apply ksum_shape_lin. intros I.
     destruct (prod_split _ _ _ _ E F U) as [[Fa [Fb Ua]]|[Fa [Fb Ub]]].
-    + rewrite (IHa e1 (or_introl eq_refl) _ Ea G Fa S Ua).
+    + rewrite (IHa e1 (or_introl eq_refl) _ Ea Fa S Ua).
       assert (Fb' : ~ fam b) by (intros H; apply Fb, fam_conj, H).
       destruct (indep_of_nofam _ _ Eb Fb' s rho I) as [<- <-]. ring.
-    + rewrite (IHa e2 (or_intror (or_introl eq_refl)) _ Eb G (proj1 (fam_conj b) Fb) _ (uni_conj _ _ Ub)).
+    + rewrite (IHa e2 (or_intror (or_introl eq_refl)) _ Eb (proj1 (fam_conj b) Fb) _ (uni_conj _ _ Ub)).
       destruct (indep_of_nofam _ _ Ea Fa s rho I) as [<- <-]. rewrite conj_lin. ring.
-  - (* Dot *)
+  - (* Dot: a product without conjugation *)
     destruct (arity num e1) as [a|] eqn:Ea; cbn [all_ok]; [|discriminate].
     destruct (arity num e2) as [b|] eqn:Eb; cbn [all_ok]; [|discriminate].
-    intros E G F S U s rho c. cbn [den]. apply ksum_lin. intros k.
+    intros E F S U s rho c. cbn [den]. apply ksum_lin. intros k.
     destruct (prod_split _ _ _ _ E F U) as [[Fa [Fb Ua]]|[Fa [Fb Ub]]].
-    + rewrite (IHa e1 (or_introl eq_refl) _ Ea G Fa S Ua).
-      assert (Fb' : ~ fam b) by (intros H; apply Fb, fam_conj, H).
-      destruct (indep_of_nofam _ _ Eb Fb' s rho (k :: skipn (length (shape e1) - 1) c)) as [<- <-]. ring.
-    + (* the code books the second operand as conjugated: sound in real mode, or when it is argument-free *)
-      destruct cm eqn:Ecm.
-      * exfalso. pose proof (G (Dot e1 e2) (se_refl _) eq_refl) as Hb. cbn in Hb.
-        apply (proj1 (fam_conj b)) in Fb. destruct Fb as [i0 [f0 [Hin _]]].
-        apply (has_arg_false _ Hb i0). apply (proj1 (arity_exact num e2 b Eb i0)). exists f0. exact Hin.
-      * pose proof (IHa e2 (or_intror (or_introl eq_refl)) _ Eb G (proj1 (fam_conj b) Fb) _ (uni_conj _ _ Ub)) as Hl.
-        rewrite (real_mode eq_refl) in Hl. rewrite Hl.
-        destruct (indep_of_nofam _ _ Ea Fa s rho (firstn (length (shape e1) - 1) c ++ [k])) as [<- <-]. ring.
+    + rewrite (IHa e1 (or_introl eq_refl) _ Ea Fa S Ua).
+      destruct (indep_of_nofam _ _ Eb Fb s rho (k :: skipn (length (shape e1) - 1) c)) as [<- <-]. ring.
+    + rewrite (IHa e2 (or_intror (or_introl eq_refl)) _ Eb Fb S Ub).
+      destruct (indep_of_nofam _ _ Ea Fa s rho (firstn (length (shape e1) - 1) c ++ [k])) as [<- <-]. ring.
 Qed.
 
 End Linear.
@@ -666,12 +652,12 @@ Variable num : nat -> nat.
 Variables D DX : nat -> A -> A.
 Variable ki : A.
 
-(* C14_sound (partial: under the guards): if check_integrand_arity accepts e for the declared arguments
+(* C14_sound: if check_integrand_arity accepts e for the declared arguments
    [args] in mode [cm], then for every argument number n among them, and any environments that differ
    only in the arguments of number n with z = sc*x + y there,
         den e [z] = s * den e [x] + den e [y],   s = conj sc for the test function (n = 0) in complex
    mode, s = sc otherwise. *)
-Theorem C14_sound_partial :
+Theorem C14_sound :
   forall (cm : bool) (n : nat) (sc : A),
   (forall x y : A, kconj (x + y) = kconj x + kconj y) ->
   (forall x y : A, kconj (x * y) = kconj x * kconj y) ->
@@ -689,17 +675,17 @@ Theorem C14_sound_partial :
   (forall s k id c, (k <> 1 \/ num id <> n) -> envz s k id c = envy s k id c) ->
   (forall s id c, num id = n -> envz s 1 id c = sc * envx s 1 id c + envy s 1 id c) ->
   forall e args,
-  check num e args cm = true -> guard cm e -> In n (map num args) ->
+  check num e args cm = true -> In n (map num args) ->
   forall s rho c,
     den envz D DX ki s rho e c =
     (if cm && Nat.eqb n 0 then kconj sc else sc) * den envx D DX ki s rho e c + den envy D DX ki s rho e c.
 Proof.
-  intros cm n sc H1 H2 H3 H4 H5 H6 H7 H8 H9 H10 H11 envx envy envz Ox Oy On e args Hc G Hn.
+  intros cm n sc H1 H2 H3 H4 H5 H6 H7 H8 H9 H10 H11 envx envy envz Ox Oy On e args Hc Hn.
   unfold check in Hc. destruct (arity num e) as [a|] eqn:Ea; [|discriminate].
   apply andb_prop in Hc. destruct Hc as [Hargs Hcj]. apply nat_list_eqb_eq in Hargs. subst args.
   assert (F : fam num n a).
   { rewrite map_map in Hn. apply in_map_iff in Hn. destruct Hn as [[i f] [E Hin]]. exists i, f. auto. }
-  apply (arity_linear A num D DX ki cm n sc H1 H2 H3 H4 H5 H6 H7 H8 H9 H10 H11 envx envy envz Ox Oy On e a Ea G F).
+  apply (arity_linear A num D DX ki n sc H1 H2 H3 H5 H6 H7 H8 H9 H10 H11 envx envy envz Ox Oy On e a Ea F).
   intros i f Hin En. unfold eff. destruct cm; cbn [andb].
   - rewrite forallb_forall in Hcj. specialize (Hcj _ Hin). unfold conj_ok in Hcj. cbn [fst snd] in Hcj.
     rewrite En in Hcj. destruct (Nat.eqb n 0); [rewrite Hcj|apply negb_true_iff in Hcj; rewrite Hcj]; reflexivity.
@@ -783,7 +769,7 @@ Qed.
 End Rejects.
 
 (* ---------------------------------------------------------------------------------------------- *)
-(* Refutations: outside the guards the (faithful) model accepts integrands that are not linear      *)
+(* The former counterexamples: not (anti)linear, and now rejected by the (repaired) checker          *)
 
 Definition num100 (i : nat) : nat := Nat.div i 100.
 
@@ -794,24 +780,14 @@ Open Scope K_scope.
 Variables D DX : nat -> A -> A.
 Variable ki : A.
 
-(* inner(as_vector([v, 1]), f) after algebra lowering:  sum_i [v, 1][i] * f[i]  -- accepted in real mode,
-   but affine in v.  Holds in EVERY UFL algebra. *)
+(* inner(as_vector([v, 1]), f) after algebra lowering:  sum_i [v, 1][i] * f[i]  -- affine in v (in EVERY UFL
+   algebra), hence rejected. *)
 Definition lt_witness : expr :=
   IndexSum (Product (Indexed (ListTensor [Term 1 0 []; IntV 1]) [Free 0])
                     (Indexed (Term 0 0 [2]) [Free 0])) 0 2.
 
-Lemma lt_witness_outside_guard : ~ guard false lt_witness.
-Proof.
-  intros G.
-  assert (S1 : subexpr (ListTensor [Term 1 0 []; IntV 1]) lt_witness).
-  { eapply se_step; [cbn; left; reflexivity|]. eapply se_step; [cbn; left; reflexivity|].
-    eapply se_step; [cbn; left; reflexivity|]. apply se_refl. }
-  specialize (G _ S1). cbn in G. specialize (G eq_refl (IntV 1) (or_intror (or_introl eq_refl)) eq_refl).
-  discriminate G.
-Qed.
-
-Theorem C14_sound_refuted :
-  check num100 lt_witness [0] false = true /\
+Theorem C14_list_tensor_constant_rejected :
+  check num100 lt_witness [0] false = false /\
   exists envx envy envz : side -> nat -> nat -> list nat -> A,
     (forall s k id c, (k <> 1 \/ num100 id <> 0) -> envz s k id c = envx s k id c) /\
     (forall s k id c, (k <> 1 \/ num100 id <> 0) -> envz s k id c = envy s k id c) /\
@@ -829,16 +805,14 @@ Proof.
     apply (self_double A). rewrite H at 1. ring.
 Qed.
 
-(* dot(u, v) in complex mode: accepted (the test function v is booked as conjugated) but linear, not
-   antilinear, in v.  Holds in every UFL algebra with a scalar a such that conj a <> a. *)
+(* dot(u, v) in complex mode: linear, not antilinear, in v (in every UFL algebra with a
+   scalar a such that conj a <> a), hence rejected; dot(u, conj(v)) is accepted. *)
 Definition dot_witness : expr := Dot (Term 1 100 [2]) (Term 1 0 [2]).
 
-Lemma dot_witness_outside_guard : ~ guard true dot_witness.
-Proof. intros G. specialize (G _ (se_refl _) eq_refl). discriminate G. Qed.
-
-Theorem C14_dot_refuted (a : A) :
+Theorem C14_dot_not_conjugating (a : A) :
   kconj a <> a ->
-  check num100 dot_witness [0; 100] true = true /\
+  check num100 dot_witness [0; 100] true = false /\
+  check num100 (Dot (Term 1 100 [2]) (Conj (Term 1 0 [2]))) [0; 100] true = true /\
   exists envx envy envz : side -> nat -> nat -> list nat -> A,
     (forall s k id c, (k <> 1 \/ num100 id <> 0) -> envz s k id c = envx s k id c) /\
     (forall s k id c, (k <> 1 \/ num100 id <> 0) -> envz s k id c = envy s k id c) /\
@@ -846,7 +820,7 @@ Theorem C14_dot_refuted (a : A) :
     den envz D DX ki None (fun _ => 0) dot_witness []
     <> kconj a * den envx D DX ki None (fun _ => 0) dot_witness [] + den envy D DX ki None (fun _ => 0) dot_witness [].
 Proof.
-  intros Ha. split; [vm_compute; reflexivity|].
+  intros Ha. split; [vm_compute; reflexivity|]. split; [vm_compute; reflexivity|].
   (* every terminal has the value (1, 0), except the test function: x = (1, 0), y = 0, z = a*x + y *)
   pose (u := fun c : list nat => match c with [0] => (k1 : A) | _ => k0 end).
   pose (isv := fun k id : nat => Nat.eqb k 1 && Nat.eqb (num100 id) 0).
@@ -875,11 +849,11 @@ End Refute.
 
 Print Assumptions arity_exact.
 Print Assumptions arity_linear.
-Print Assumptions C14_sound_partial.
+Print Assumptions C14_sound.
 Print Assumptions C14_args_exact.
 Print Assumptions C14_rejects_affine.
 Print Assumptions C14_rejects_square.
 Print Assumptions C14_rejects_nonlinear.
 Print Assumptions C14_rejects_denominator.
-Print Assumptions C14_sound_refuted.
-Print Assumptions C14_dot_refuted.
+Print Assumptions C14_list_tensor_constant_rejected.
+Print Assumptions C14_dot_not_conjugating.
